@@ -255,6 +255,14 @@ def bean_layer(ctx):
             type_oracle(ctx, conn, 'SELECT x FROM (SELECT %s AS x FROM #postings)' % col['name'], 'subquery-column:%s' % col['name'])
         for expr in ('count(*)', 'sum(number)', 'sum(position)', 'first(date)', 'max(account)'):
             type_oracle(ctx, conn, 'SELECT x FROM (SELECT %s AS x FROM #postings)' % expr, 'subquery-column:%s' % expr)
+        # aggregates over groups whose argument is NULL on every row (most accounts hold nothing at cost): what the
+        # aggregate starts from is what comes out, and it is of the announced datatype too
+        for expr in ('sum(cost_number)', 'min(cost_number)', 'max(cost_number)', 'first(cost_number)', 'last(cost_number)',
+                     'count(cost_number)', 'sum(int(cost_number))', 'sum(price)', 'sum(cost_number) + 1', 'max(cost_date)',
+                     'min(cost_currency)', 'first(cost_label)', 'sum(number * cost_number)', 'abs(sum(cost_number))'):
+            type_oracle(ctx, conn, 'SELECT account, %s AS x FROM #postings GROUP BY account' % expr, 'aggregate-of-nulls:%s' % expr)
+            type_oracle(ctx, conn, 'SELECT %s AS x FROM #postings WHERE cost_number IS NULL GROUP BY account' % expr,
+                        'aggregate-of-nulls:%s' % expr)
         # structured attributes
         for sname, attrs in facts['structures'].items():
             base = {'position': ('position', 'postings'), 'cost': ('position.cost', 'postings'), 'amount': ('price', 'postings'),
